@@ -101,3 +101,10 @@ Definition model_agrees (c : case) : bool :=
 
 Definition check_case (c : case) : nat :=
   if negb (oracle c) then 2 else if model_agrees c then 0 else 1.
+
+(* Twin probe (hierarchies with several bases, sequential triggers): the observations of
+   the lazily decorated classes and of their eagerly decorated twins after the same
+   sequence of uses.  Implementation observations only; the chain model does not cover
+   multiple bases.  2 = distinguishable (or an exception only... any difference), 0 = equal. *)
+Definition check_twin (p : list (list Z) * list (list Z)) : nat :=
+  if zlistlist_eqb (fst p) (snd p) then 0 else 2.
